@@ -7,7 +7,7 @@ from ..ops import *
 from .c04 import judge
 
 IMPORTS = ('From OFV Require Import Base.Cplx Base.Lin Base.Mat Sem.FermiSem Model.SymbolicOp Model.LadderOp Check.OpEquiv Check.MatrixOf Check.Quadratic.\n')
-NEEDS = ['Check/Quadratic']
+NEEDS = ['Check/Quadratic', 'Thm/C12/DiagSpectrum']
 LEVEL = 'translation_validation'
 T2 = cQ(Fraction(1, 10 ** 16))
 def cvec(v): return '(' + clist([cC(complex(x)) for x in np.asarray(v).reshape(-1)]) + ' : vec)'
